@@ -1,5 +1,5 @@
 (* Extract/C07.v — OCaml extraction of the UEFI core model plus the extract / reload model. *)
-From Fiano Require Import Base.Bytes Model.Ffs Model.Extract.
+From Fiano Require Import Base.Bytes Model.Ffs Model.Extract Model.TightenMe Model.FlashImage Model.ExtractFlash.
 Require Extraction.
 Require Import ExtrOcamlBasic.
 Extraction Language OCaml.
@@ -7,4 +7,5 @@ Extraction "../ocaml/c07/model.ml" parse_region save_region parse_fv parse_file 
   asm asm_bios node_buf create_pad_file
   extract extract_list extract_region reload reload_list json_project render_path
   dir_save dir_save_tree extract_paths save_projected
-  paths_okb_list wf_treeb_list nodupb keys guid_string guid_parse.
+  paths_okb_list wf_treeb_list nodupb keys guid_string guid_parse
+  flash_layout bios_tree flash_dir_save flash_extract_paths flash_save_twice_image.
